@@ -13,6 +13,6 @@ ninja -C "$tmp" $targets >"$tmp/build.log" 2>&1 || { tail -40 "$tmp/build.log"; 
 rc=0
 for t in $targets; do
     echo "== $t"
-    LD_LIBRARY_PATH="$bld/src" QT_QPA_PLATFORM=offscreen timeout 200 "$tmp/$t" 2>&1 | grep -E "REPRODUCED|not reproduced|FAIL|detail:|: in sensitive part" 
+    LD_LIBRARY_PATH="$bld/src" QT_QPA_PLATFORM=offscreen timeout 200 "$tmp/$t" 2>&1 | grep -E "REPRODUCED|not reproduced|FAIL|detail:|: in sensitive part|   pass " 
 done
 exit 0
